@@ -1,9 +1,14 @@
-"""Shape-independent rule checkers on the NTT translation unit (filled in incrementally)."""
+"""Dispatch of the shape-independent rule checkers (glv/rules.py) used by the transform properties."""
+from . import rules
 
 
 def run_rules(rep, which):
-    from . import rules
     for w in which:
         f = getattr(rules, 'rule_' + w.replace('-', '_'), None)
-        if f is not None:
+        if f is None:
+            rep.incomplete('rule:' + w, 'rules', 'glv/rules.py', 'rule %s is not implemented' % w)
+            continue
+        try:
             f(rep)
+        except Exception as e:
+            rep.incomplete('rule:' + w, 'rules', 'glv/rules.py', 'rule aborted: %s: %s' % (type(e).__name__, str(e)[:200]))
